@@ -150,17 +150,18 @@ def known_noroot(ctx, prop, cases, verdict_cases):
     return n
 
 
-def record_and_validate(ctx, prop, n, nns, threads, extra_checks, cfg="TraceFetch.cfg"):
+def record_and_validate(ctx, prop, n, nns, threads, extra_checks, cfg="TraceFetch.cfg", budget_secs=100000, at_least=30):
     """Record n seeded random runs of the real fetch and let TLC validate them against Fetch.tla.
     A record TLC cannot explain is judged like a replay divergence: violation if the fetcher's own
     validate_remote or the statement (evaluated on the real before/after state) fails, drift
     otherwise; it is then dropped and the rest of the trace validated again.
     Returns (recorded runs, number accepted by TLC, number judged as drift)."""
     rec = os.path.join(ctx.work, "rec.ndjson")
-    ctx.engine(ENGINE, ["--mode", "record", "--n", n, "--ns", nns, "--out", rec, "--threads", threads], timeout=3000)
+    ctx.engine(ENGINE, ["--mode", "record", "--n", n, "--ns", nns, "--out", rec, "--threads", threads,
+                        "--budget-secs", budget_secs], timeout=budget_secs * 3 + 600)
     recorded = ctx.read_ndjson(rec)
-    if len(recorded) != n:
-        raise vlib.ToolError(f"record mode produced {len(recorded)} of {n} runs")
+    if len(recorded) < min(n, at_least):
+        raise vlib.ToolError(f"record mode produced only {len(recorded)} of {n} runs within {budget_secs}s")
     if not hasattr(ctx, "drift"):
         ctx.drift = []
     todo = list(recorded)
